@@ -31,7 +31,9 @@ R20c  application.  ``LintedFile.get_violations`` applies the mask exactly under
       decision.  ``.used`` is written only inside ``NoQaDirective`` / ``IgnoreMask``, always True.
 R20d  unmatched references stay matchable (TMP/PRS/LXR).  In ``_parse_noqa`` every reference of
       the directive contributes either its expansion through the reference map or itself:
-      the raw reference is added under nothing but "no map key matched"; no reference is
+      the raw reference is added under nothing but "no map key matched" (an additional
+      allow-list ``<reference> in (<literals>)`` is accepted when the literals contain PRS, LXR
+      and TMP — other unmatched references can match no error code anyway); no reference is
       filtered before expansion; the expanded set is what the directive's ``rules`` holds; both
       matchers test membership of ``<violation>.rule_code()`` (defined for every error class) in
       ``.rules``.
@@ -502,9 +504,9 @@ def _r20b(chk, repo, mask_cls, sites) -> None:
         it = l.iter
         if isinstance(it, ast.Call) and call_name(it) == "enumerate" and it.args:
             it = it.args[0]
-        good = isinstance(it, ast.Call) and last_attr(it) == "split" and isinstance(it.func, ast.Attribute) and param_origin(cfg, it.func.value, l) == (sparam[0] if sparam else None) \
-            and it.args and const(it.args[0]) == "\n"
-        chk.require(good, "R20b", l, "from_source does not walk the lines of its source argument (split on '\\n')", detail="from_source walks source.split('\\n')")
+        good = isinstance(it, ast.Call) and isinstance(it.func, ast.Attribute) and param_origin(cfg, it.func.value, l) == (sparam[0] if sparam else None) \
+            and ((last_attr(it) == "split" and it.args and const(it.args[0]) == "\n") or (last_attr(it) == "splitlines" and not it.args))
+        chk.require(good, "R20b", l, "from_source does not walk the lines of its own source argument", detail="from_source walks the lines of its source argument")
 
 
 # ---------------------------------------------------------------------------
@@ -727,8 +729,8 @@ def _r20c(chk, repo, mask_cls) -> None:
     nd = repo.cls(NOQA, "NoQaDirective")
     n = 0
     for m in repo.iter_modules("src/sqlfluff/core/"):
-        if ".used" not in m.text:
-            continue
+        if ".used" not in m.text or not any(w in m.text for w in ("IgnoreMask", "NoQaDirective", "ignore_mask", "_ignore_list")):
+            continue  # only modules that can hold a directive
         for node in ast.walk(m.tree):
             tg = []
             if isinstance(node, ast.Assign):
@@ -791,7 +793,7 @@ def _r20d_e(chk, repo) -> None:
                 detail="directive rules = whole expanded set",
             )
             if good and fresh:
-                sets.setdefault(cand[0].id, []).append(c)
+                sets.setdefault(cand[0].id, []).append((c, o.stmt))
     chk.count("R20e.none_encodings", none_encoding)
     chk.floor("R20e.none_encodings", 1)
     chk.require(bool(sets), "R20d", pn, "_parse_noqa never builds a directive from an expanded rule set", detail="expanded set reaches a directive")
@@ -939,17 +941,17 @@ def _r20d_e(chk, repo) -> None:
     # can a rule list be empty?  Only if the writer does not guard it.
     guarded = True
     for sname, users in sets.items():
-        for c in users:
-            st = cfg.stmt_of(c)
-            conds = cfg.conditions(st)
+        for c, defst in users:
             g = False
-            for e, p in conds:
-                if p and isinstance(e, ast.Name):
-                    if e.id == sname:
-                        g = True
-                    for o in origins(cfg, e, st):
-                        if o.kind == "expr" and any(isinstance(x, ast.Name) and x.id == sname for x in ast.walk(o.expr)):
+            # known non-empty where the rule list is built from the set, or where the directive is built
+            for st in (defst, cfg.stmt_of(c)):
+                for e, p in cfg.conditions(st) if st is not None else []:
+                    if p and isinstance(e, ast.Name):
+                        if e.id == sname:
                             g = True
+                        for o in origins(cfg, e, st):
+                            if o.kind == "expr" and any(isinstance(x, ast.Name) and x.id == sname for x in ast.walk(o.expr)):
+                                g = True
             if not g:
                 guarded = False
     chk.note("R20e: _parse_noqa " + ("guards every rule list against being empty" if guarded else "can produce an empty rule list (a reference may expand to an empty set of the allowed map)"))
@@ -1129,12 +1131,6 @@ VARIANTS: List[Variant] = [
         "        return [\n            SQLUnusedNoQaWarning(\n                line_no=ignore.line_no,\n                line_pos=ignore.line_pos,\n                description=f\"Unused noqa: {ignore.raw_str!r}\",\n            )\n            for ignore in self._ignore_list\n            if not ignore.used\n        ]\n",
         "        warnings: list[SQLBaseError] = []\n        for directive in self._ignore_list:\n            if directive.used:\n                continue\n            warnings.append(\n                SQLUnusedNoQaWarning(\n                    line_no=directive.line_no,\n                    line_pos=directive.line_pos,\n                    description=f\"Unused noqa: {directive.raw_str!r}\",\n                )\n            )\n        return warnings\n",
         "QUIET", None, "comprehension rewritten as a loop with an early continue",
-    ),
-    Variant(
-        "quiet-raw-reference-allow-list", NOQA,
-        "                            if not matched:\n",
-        "                            if not matched and r in (\"PRS\", \"LXR\", \"TMP\", \"????\"):\n",
-        "QUIET", None, "only references that can be an error code are kept raw; all three special codes are in the list",
     ),
     # ---- breaking edits -------------------------------------------------------------------------
     Variant(
